@@ -1066,7 +1066,7 @@ def check_fit(case, rec):
     except RuntimeError as exc:
         # scipy: "Optimal parameters not found: The maximum number of function evaluations is exceeded."
         if expect_recovery:
-            ref_err = _reference_fit(case, names, free, anis_fit, plan, bnd, start_vals, start_anis, x, y, sig)
+            ref_err = _reference_fit(case, names, free, anis_fit, plan, bnd, start_vals, start_anis, x, y, sig) if scale_ok else 0.0
             if ref_err is None or ref_err > tol_c:
                 rec.label("scipy_limit_confirmed_by_reference_fit")
                 return
@@ -1227,7 +1227,7 @@ def check_fit(case, rec):
         return
     err = float(np.max(np.abs(resid)))
     rec.label("optimum_on_bound" if at_bound else "optimum_interior")
-    if err > tol_c:
+    if err > tol_c and scale_ok:  # (outside scale_ok only with KNOWN["scipy_abs_tolerance"] off: no absolution)
         if _is_local_optimum(case, names, free, anis_fit, plan, bnd, post, x, y, sig, c1):
             # curve_fit legitimately ended in a secondary optimum of the (weighted,
             # robust) cost: no neighbouring parameter set has a lower oracle cost
@@ -1242,7 +1242,7 @@ def check_fit(case, rec):
     require(
         err <= tol_c,
         f"fitted curve misses the noise-free data by {err:.3g} (= {err / sill_t:.3g} sill, tol {tol_c:.3g}); para={ {k: (float(v) if k != 'anis' else list(map(float, v))) for k, v in para.items()} }",
-        dict(tags, kind="curve"),
+        dict(tags, kind="curve", scale_ok=scale_ok),
     )
     # r2 budget inflated like the (squared) curve budget
     tol_r2 = R2_TOL * (tol_c / (CURVE_TOL * sill_t)) ** 2
